@@ -1,11 +1,14 @@
 """Copy the seeded changes of a round (scratch dirs) into seeded/<property>-<n>/ with meta.json built from the evaluation results."""
 import json, os, shutil, sys
 rnd, base, first = int(sys.argv[1]), sys.argv[2], int(sys.argv[3])      # e.g. 4 /tmp/mut4 10
-ORD = {4: 'fourth', 5: 'fifth'}[rnd]
+ORD = {4: 'fourth', 5: 'fifth', 6: 'sixth'}[rnd]
+KS = tuple(int(x) for x in sys.argv[4].split(',')) if len(sys.argv) > 4 else (1, 2, 3)
 for i in range(1, 21):
     p = 'C%02d' % i
-    for k in (1, 2, 3):
+    for k in KS:
         src = '%s/%s/out/%d' % (base, p, k)
+        if not os.path.exists(src + '/patch.diff') or not os.path.exists('%s/results1/%s_%d.json' % (base, p, k)):
+            print('skip', src); continue
         dst = '/verif/seeded/%s-%d' % (p, first + k - 1)
         os.makedirs(dst, exist_ok=True)
         shutil.copy(src + '/patch.diff', dst + '/patch.diff')
